@@ -272,19 +272,28 @@ def _waveform_tables(E: Engine, rep: Report) -> None:
     # deserializer kinds
     dw = E.fn("pulser.json.abstract_repr.deserializer._deserialize_waveform")
     dkinds: dict[str, dict] = {}
-    for n in ast.walk(dw.node):
-        if isinstance(n, ast.If) and isinstance(n.test, ast.Compare) and norm(n.test.left) == "obj['kind']" and isinstance(n.test.comparators[0], ast.Constant):
-            kind = n.test.comparators[0].value
-            keys = set()
-            ctor = None
-            kws: list[str] = []
-            for s in ast.walk(ast.Module(body=n.body, type_ignores=[])):
-                if isinstance(s, ast.Subscript) and isinstance(s.value, ast.Name) and s.value.id == "obj" and isinstance(s.slice, ast.Constant):
-                    keys.add(s.slice.value)
-                if isinstance(s, ast.Return) and isinstance(s.value, ast.Call):
-                    ctor = dotted(s.value.func)
-                    kws = [k.arg for k in s.value.keywords if k.arg]
-            dkinds[kind] = {"keys": keys, "ctor": ctor, "kws": kws, "line": n.lineno}
+    # per returned constructor call of the symbolic normal form (locals such as `kind = obj["kind"]` and nested
+    # helpers such as `param(key)` are inlined): the kind its path fixes, the keys of `obj` it reads, its keywords
+    from .. import sym as _sym
+    from .symutil import S as _S, is_ as _is
+
+    for l in _S(E, dw).logged("return"):
+        kind = None
+        for x in _sym.conj_of(l.cond):
+            m_ = _is(x, "obj['kind'] == Q_k")
+            if m_ is not None and m_["Q_k"][0] == "const":
+                kind = m_["Q_k"][1]
+        if kind is None or l.value is None:
+            continue
+        keys = {t[2][1] for t in _sym.subterms(l.value) if t[0] == "idx" and t[1] == ("name", "obj") and t[2][0] == "const"}
+        v = l.value
+        while v[0] == "obj":
+            v = v[2]
+        ctor = _sym.show(v[1]) if v[0] == "call" else None
+        kws = [k for k, _v in v[3]] if v[0] == "call" else []
+        if kind in dkinds:
+            keys |= dkinds[kind]["keys"]
+        dkinds[kind] = {"keys": keys - {"kind"}, "ctor": ctor, "kws": kws, "line": getattr(l.node, "lineno", dw.node.lineno)}
     # schema waveform definitions
     skinds = {}
     for dname, d in sch.items():
